@@ -110,7 +110,7 @@ all-FF, random arrays; oracle: exactly all-zero -> PublicKeyIsZero, exactly N ->
 as_le_bytes() returns the input. distinct = distinct arrays tried (all non-trivial: each is a separate input of the quantifier)"
         .to_string();
     // ---- the 2^32 look-alike family
-    let shards = 256usize;
+    let shards = if tier == "miri" { 8usize } else { 256usize };
     let per = match tier {
         "thorough" => 1u64 << 24,
         "quick" => 1u64 << 20,
@@ -138,7 +138,7 @@ as_le_bytes() returns the input. distinct = distinct arrays tried (all non-trivi
         let mut wrong_other = 0u64;
         let mut first: Option<([u8; 32], Out)> = None;
         for lo in 0..per {
-            let mask = ((sh as u64) << 24 | slice | lo) as u32;
+            let mask = (((sh as u64) << 24) | slice | lo) as u32 ^ if shards == 8 { 0x5A5A_0000 } else { 0 };
             let mut x = [0u8; 32];
             for k in 0..4 {
                 x[k * 8..k * 8 + 8].copy_from_slice(&table[k][((mask >> (8 * k)) & 255) as usize].to_le_bytes());
@@ -186,16 +186,17 @@ as_le_bytes() returns the input. distinct = distinct arrays tried (all non-trivi
     // ---- neighbours
     let mut rep = Rep::new();
     let zero = [0u8; 32];
+    let miri = tier == "miri";
     for base in [zero, N_LE] {
         let bname = if base == zero { "near0" } else { "nearN" };
         judge(&mut rep, bname, base);
-        for bit in 0..256 {
+        for bit in (0..256).step_by(if miri { 5 } else { 1 }) {
             let mut x = base;
             x[bit / 8] ^= 1 << (bit % 8);
             judge(&mut rep, &format!("{}:bitflip", bname), x);
         }
         for i in 0..32 {
-            for v in 0..=255u8 {
+            for v in (0..=255u8).step_by(if miri { 51 } else { 1 }) {
                 let mut x = base;
                 x[i] = v;
                 judge(&mut rep, &format!("{}:byte_replaced", bname), x);
@@ -203,6 +204,38 @@ as_le_bytes() returns the input. distinct = distinct arrays tried (all non-trivi
             judge(&mut rep, &format!("{}:plus256^i", bname), add_le(&base, i, true));
             judge(&mut rep, &format!("{}:minus256^i", bname), add_le(&base, i, false));
         }
+    }
+    if tier == "thorough" {
+        // every array that differs from 0 or from N in exactly two bytes
+        let two = par(32, threads(), |i| {
+            let mut rep = Rep::new();
+            for base in [[0u8; 32], N_LE] {
+                for j in (i + 1)..32 {
+                    for a in 0..=255u8 {
+                        if a == base[i] {
+                            continue;
+                        }
+                        for b in 0..=255u8 {
+                            if b == base[j] {
+                                continue;
+                            }
+                            let mut x = base;
+                            x[i] = a;
+                            x[j] = b;
+                            let got = call(x);
+                            if got != Out::Ok {
+                                judge(&mut rep, "two_bytes_replaced", x);
+                            }
+                        }
+                    }
+                    rep.ev(255 * 255);
+                    rep.distinct_extra += 255 * 255;
+                }
+            }
+            rep.count("two_byte_neighbours_enumerated", rep.evals);
+            rep
+        });
+        total.merge(two);
     }
     // 2N mod 2^256
     let mut two_n = [0u8; 32];
@@ -215,7 +248,7 @@ as_le_bytes() returns the input. distinct = distinct arrays tried (all non-trivi
     judge(&mut rep, "2N_mod_2^256", two_n);
     judge(&mut rep, "all_ff", [0xff; 32]);
     // small integers (the family contains e.g. 183 = N's lowest byte)
-    for v in 0..=65535u32 {
+    for v in 0..=(if miri { 300u32 } else { 65535u32 }) {
         let mut x = [0u8; 32];
         x[0] = v as u8;
         x[1] = (v >> 8) as u8;
@@ -226,8 +259,8 @@ as_le_bytes() returns the input. distinct = distinct arrays tried (all non-trivi
     // ---- random arrays and random family masks
     let nrand: u64 = match tier {
         "quick" => 4_000_000,
-        "thorough" => 40_000_000,
-        _ => 2000,
+        "thorough" => 2_000_000_000,
+        _ => 320,
     };
     let r = par(16, threads(), |sh| {
         let mut rep = Rep::new();
